@@ -34,6 +34,8 @@ pub const TEXT_CHARS: &[char] = &[
     'A', 'Ｂ', 'ｂ', '３', ' ', '.', ',', '、', '!', '(', ')', '（', '）', '《', '》', '一', '二', '十', '百', '千', '万', '億',
     '\u{0301}', '\u{200d}', '👍', '🏻', '㍿', 'İ', '\u{0}', '\u{7}', '\u{378}', '～', '〜', 'ｶ', 'ﾞ', 'ｇ', '㌔', 'ǆ',
     'Ω', 'я', '\n', '漢', '字',
+    // syntax characters of regexes / CSV / JSON / paths: ordinary text for every property
+    '\\', '"', '\'', '^', '-', '|', '$', '*', '+', '[', ']', '{', '}', '<', '>', '&', '#', '/', '%', '=', ';', ':', '?', '_', '~', '`', '@',
 ];
 
 #[derive(Clone, Debug)]
